@@ -201,6 +201,46 @@ pub fn height_case(shape: Shape, s: usize, n: usize, cfg: Config) -> Case {
                 let st = IncrState::new_with_height(n + grow);
                 let b = build(&st, shape, s);
                 drive(&st, &b).map_err(|(k, m)| format!("under the larger limit stabilise #{k} panicked: {m}"))?;
+                // a request below what is in use is refused; the refusal must leave the state usable:
+                // both heaps still agree on one limit and the graph already built keeps working
+                for below in [h2 as i64 - 2, h2 as i64 - 1, 0] {
+                    if below < 0 || below >= h2 as i64 {
+                        continue;
+                    }
+                    let r = catch_unwind(AssertUnwindSafe(|| st.set_max_height_allowed(below as usize)));
+                    if r.is_ok() {
+                        return Err(format!("set_max_height_allowed({below}) was accepted with height {h2} in use"));
+                    }
+                    audit(&st, &format!("after a refused set_max_height_allowed({below})"))?;
+                    b.base.set(10 + below);
+                    let r = catch_unwind(AssertUnwindSafe(|| st.stabilise()));
+                    if let Err(e) = r {
+                        return Err(format!(
+                            "after a refused set_max_height_allowed({below}) the graph already in use (height {h2}) was rejected: {}",
+                            crate::panic_message(e)
+                        ));
+                    }
+                    let expected = {
+                        let big = IncrState::new_with_height(4096);
+                        let rb = build(&big, shape, s);
+                        let _ = drive(&big, &rb);
+                        rb.base.set(10 + below);
+                        big.stabilise();
+                        rb.obs.try_get_value()
+                    };
+                    if b.obs.try_get_value() != expected {
+                        return Err(format!(
+                            "after a refused set_max_height_allowed({below}) the observer reads {:?}, expected {:?}",
+                            b.obs.try_get_value(),
+                            expected
+                        ));
+                    }
+                }
+                b.base.set(0);
+                let r = catch_unwind(AssertUnwindSafe(|| st.stabilise()));
+                if let Err(e) = r {
+                    return Err(format!("stabilise before shrinking panicked: {}", crate::panic_message(e)));
+                }
                 let r = catch_unwind(AssertUnwindSafe(|| st.set_max_height_allowed(n)));
                 if let Err(e) = r {
                     return Err(format!("set_max_height_allowed({n}) with heights in use {h2} panicked: {}", crate::panic_message(e)));
